@@ -188,6 +188,8 @@ void	simk_finish_stats(void);
 long	simk_ring(int back, int *kind, int *tid, int64_t *a, int64_t *b, int64_t *t);	/* count of kills that hit a reaped/reused pid */
 void	simk_set_real_fork(int on);		/* next fork() is a real (puppet) fork */
 pid_t	simk_real_fork(void);
+int	simk_env_kill(pid_t pid, int sig);
+void	simk_pid_hold(pid_t pid, int on);	/* keep a pid from being recycled */
 int	simk_real_child_wait(pid_t pid);
 
 #endif
